@@ -125,7 +125,7 @@ func observe(c *caseRec) []map[string]any {
 	case "rest":
 		recs := []map[string]any{aspIdentity(c), aspLitFmt(c), aspLitParse(c), aspIdentURL(c), aspReadBack(c)}
 		if c.Base == "" { // strong vs weak does not involve the base URL
-			recs = append(recs, aspStrongWeak(c))
+			recs = append(recs, aspStrongWeak(c), aspFromRes(c))
 		}
 		return recs
 	case "frag":
